@@ -159,3 +159,28 @@ Definition find_index (r : re) (subject : bytes) : option (list Z) :=
                              | None => [(-1)%Z; (-1)%Z]
                              end) (seq 0 (S (max_group r))))
   end.
+
+(* regexp.ReplaceAll(s, nil): every leftmost-first match, left to right and not overlapping, is
+   removed.  [pos] is the offset of [s] in the subject (for ^).  A match that is empty removes
+   nothing and the scan moves on by one byte. *)
+Fixpoint delete_all_go (fuel : nat) (r : re) (s : bytes) (pos : nat) : bytes :=
+  match fuel with
+  | O => s
+  | S f =>
+    match search r s pos with
+    | None => s
+    | Some cs =>
+      match cap_get cs 0 with
+      | Some (a, b) =>
+        let before := firstn (a - pos) s in
+        if Nat.ltb a b then before ++ delete_all_go f r (skipn (b - pos) s) b
+        else match skipn (a - pos) s with
+             | [] => before
+             | c :: rest => before ++ c :: delete_all_go f r rest (S a)
+             end
+      | None => s
+      end
+    end
+  end.
+
+Definition delete_all (r : re) (s : bytes) : bytes := delete_all_go (S (length s)) r s 0.
